@@ -6,6 +6,11 @@
 
 #include <orc/orconce.h>
 #include <orc/orcdebug.h>
+#ifdef ORC_VERIF_HOOKS
+#include <orc/orcverif.h>
+
+OrcVerifSchedHook orc_verif_sched_hook = 0;
+#endif
 
 #if defined(HAVE_THREAD_PTHREAD)
 
@@ -17,6 +22,9 @@ static pthread_mutex_t global_mutex = PTHREAD_MUTEX_INITIALIZER;
 void
 orc_once_mutex_lock (void)
 {
+#ifdef ORC_VERIF_HOOKS
+  ORC_VERIF_POINT (ORC_VERIF_PT_ONCE_LOCK);
+#endif
   pthread_mutex_lock (&once_mutex);
 }
 
@@ -24,11 +32,17 @@ void
 orc_once_mutex_unlock (void)
 {
   pthread_mutex_unlock (&once_mutex);
+#ifdef ORC_VERIF_HOOKS
+  ORC_VERIF_POINT (ORC_VERIF_PT_ONCE_UNLOCK);
+#endif
 }
 
 void
 orc_global_mutex_lock (void)
 {
+#ifdef ORC_VERIF_HOOKS
+  ORC_VERIF_POINT (ORC_VERIF_PT_GLOBAL_LOCK);
+#endif
   pthread_mutex_lock (&global_mutex);
 }
 
@@ -36,6 +50,9 @@ void
 orc_global_mutex_unlock (void)
 {
   pthread_mutex_unlock (&global_mutex);
+#ifdef ORC_VERIF_HOOKS
+  ORC_VERIF_POINT (ORC_VERIF_PT_GLOBAL_UNLOCK);
+#endif
 }
 
 #elif defined(HAVE_THREAD_WIN32)
